@@ -137,6 +137,7 @@ func Run(r *rep.Report, tier string) {
 	r.Set("replays_abandoned_by_worker", int(hangs.Load()))
 	r.Set("transitions_skipped_after_repeated_hang", int(pruned.Load()))
 	r.Set("supervisor_errors", int(supervisorErrors.Load()))
+	r.Set("worker_deaths_not_repeated_by_a_second_worker", int(p.transient.Load()))
 	r.Set("exhaustive", exhaustive)
 	r.Set("rule", "BFS over operation histories (values {1,2,3}, two sets A and B per state) for {unordered,ordered}x{plain,Synchronize}; "+
 		"every history replayed on fresh dt.Sets in a supervised child process and compared with a map+insertion-order reference after every operation "+
